@@ -4,7 +4,7 @@
 use serde_json::{json, Value as J};
 
 use crate::ast::*;
-use crate::monitors::c01::{judge_row, observe_rows};
+use crate::monitors::c01::judge_row;
 use crate::refx::*;
 use crate::rng::Rng;
 use crate::runner::*;
@@ -145,6 +145,15 @@ impl Monitor for C02 {
                 3 | 4 => match &ty { Ty::Int => Modifier::Default(E::Int(99)), Ty::Real => Modifier::Default(E::Real(2.5)), Ty::Text => Modifier::Default(E::Str("dflt".into())), Ty::Bool => Modifier::Default(E::Bool(true)), _ => Modifier::Default(E::Null) },
                 _ => Modifier::None,
             };
+            // one column in six: several modifiers at once (the first through the SQL text, the others through the library API,
+            // which is how the crate's own tests and embedding programs build tables): CONVERT + DEFAULT, NOT NULL + CONVERT, ...
+            let modifier = if rng.chance(1, 6) {
+                let mut parts: Vec<Modifier> = if modifier == Modifier::None { vec![] } else { vec![modifier] };
+                let mut extra: Vec<Modifier> = vec![Modifier::NotNull, Modifier::Convert, Modifier::Convert];
+                match &ty { Ty::Int => extra.push(Modifier::Default(E::Int(5))), Ty::Real => extra.push(Modifier::Default(E::Real(0.5))), Ty::Text => extra.push(Modifier::Default(E::Str("other".into()))), Ty::Bool => extra.push(Modifier::Default(E::Bool(false))), _ => {} }
+                for _ in 0..(1 + rng.below(2)) { let m = rng.pick(&extra).clone(); if !parts.iter().any(|p| std::mem::discriminant(p) == std::mem::discriminant(&m)) { parts.push(m); } }
+                if parts.len() >= 2 { Modifier::Combo(parts) } else { parts.pop().unwrap_or(Modifier::None) }
+            } else { modifier };
             spec.cols.push(ColSpec { name: format!("c{}", ci), ty, src: Src::Json(steps), modifier });
         }
         if rng.chance(1, 4) { spec.cols.push(ColSpec { name: "rx".into(), ty: Ty::Int, src: Src::Inline("\"a\"\\s*:\\s*(-?[0-9]+)".into()), modifier: Modifier::None }); }
@@ -157,7 +166,7 @@ impl Monitor for C02 {
         let docs: Vec<Option<JV>> = case["docs"].as_array().map(|a| a.iter().map(JV::from_case).collect()).unwrap_or_default();
         // a JSON `null` document and "no document" are both stored as null: the line text tells them apart
         let text = case["table"].as_str().unwrap_or("");
-        let observed = match observe_rows(text, &lines) {
+        let observed = match crate::monitors::c01::observe_rows_spec(&spec, &lines) {
             Ok(o) => o,
             Err(crate::eng::EngErr::Panic(p)) => return Verdict::Violated(vec![Violation::new(format!("extract|definition|{}", p.sig()), p.describe())]),
             Err(crate::eng::EngErr::Err(e)) => return Verdict::Violated(vec![Violation::new(format!("extract|definition-rejected|{}", e.chars().filter(|c| !c.is_ascii_digit()).take(40).collect::<String>()), format!("rejected: {} :: {}", e, text))]),
